@@ -28,6 +28,10 @@ tags.merge_to() it calls.
 remote-tags-cache-follows-write: RemoteBranch._set_tags_bytes refreshes the cached tags on every normal exit while locked.
 git-tag-target-holds-object: InterTagsFromGitToLocalGit.merge writes a ref into the target's refs only after resolving the
 tagged object in the target repository (third-round seeds).
+Fourth round: git-refs-read-through-container — outside transportgit.py/refs.py no breezy/git function calls read_loose_ref/get_packed_refs (a
+ref lookup must see loose and packed refs alike). master-tag-merge-unless-source-is-master — GenericInterBranch.pull passes
+merge_tags_to_master=not <source is master> (or True), nothing else. git-push-tag-conflict-live — _update_pure_git_refs (bzr -> git push) has
+an append to result.tag_conflicts whose enclosing guards are not constants (today: KNOWN FINDING, the guard is `diverged = False`).
 Does not decide: bencode correctness (library); git tag stores beyond the shared reconcile function.
 """
 
@@ -161,9 +165,65 @@ def run(ctx):
         look = _calling(ggm, attr="lookup_foreign_revision_id", recv=repo_name)
         okg = bool(look) and ggm.always_before(look, [sid])[0]
         ctx.check("git-tag-target-holds-object", wgm, okg, f"`{refs_expr}[...] = ...` is preceded on every path by {repo_name}.lookup_foreign_revision_id(...) (the target must contain the tagged commit)", construct=ggm.nodes[sid].text()[:60], message=f"a tag ref is written into {refs_expr} without first resolving the tagged object in that same repository: a tag whose commit was never fetched becomes a dangling ref, with overwrite a valid tag is replaced by it and disappears from the tag dictionary, and the reported updates cannot be read back")
+    # ---- fourth round: refs are read through the container (loose and packed alike), never through its loose-file reader ----
+    _OWNERS = ("breezy/git/transportgit.py", "breezy/git/refs.py")  # the ref containers themselves
+    n_gitmods, leaks = 0, []
+    for rel_ in repo.python_files(sub="breezy/git"):
+        if rel_ in _OWNERS:
+            continue
+        n_gitmods += 1
+        for q_, f_ in repo.module(rel_).functions().items():
+            for c in calls_in(f_):
+                if call_attr(c) in ("read_loose_ref", "get_packed_refs", "_read_loose_ref"):
+                    leaks.append((rel_, q_, c))
+    ctx.require(n_gitmods >= 20 and all(any(q_.endswith("." + m_) for q_ in repo.module(o_).functions()) for o_, m_ in (("breezy/git/transportgit.py", "read_loose_ref"), ("breezy/git/transportgit.py", "get_packed_refs"))), "breezy/git: the ref container's read_loose_ref/get_packed_refs were not found (renamed?)")
+    ctx.check("git-refs-read-through-container", "breezy/git/*", not leaks, "no code outside the ref containers reads a ref through read_loose_ref()/get_packed_refs(): a ref is looked up with refs[..]/get()/in, which see loose and packed refs alike", construct="; ".join(f"{r}:{q} L{c.lineno}" for r, q, c in leaks), message=f"{leaks[0][0]}:{leaks[0][1]} reads a ref with `{norm(leaks[0][2])[:70]}`, which sees only one of the two places a ref is stored: after `git pack-refs` (or gc) the destination's tags live in packed-refs, look absent, and a differing tag is overwritten without a conflict — the destination value is not kept" if leaks else "")
+    # ---- fourth round: the bzr -> git ref update has a live conflict branch for differing tags -------------------------
+    fup = repo.func(GB, "_update_pure_git_refs")
+    wup = f"{GB}:_update_pure_git_refs"
+    apps = [c for c in calls_in(fup) if call_attr(c) == "append" and (call_recv(c) or "").endswith(".tag_conflicts")]
+    dead = []
+    if apps:
+        consts = {}
+        for s_ in ast.walk(fup):
+            if isinstance(s_, ast.Assign) and len(s_.targets) == 1 and isinstance(s_.targets[0], ast.Name):
+                consts.setdefault(s_.targets[0].id, []).append(s_.value)
+
+        def _encl(node, target, acc):
+            for ch in ast.iter_child_nodes(node):
+                if ch is target:
+                    return True
+                if isinstance(ch, ast.If) and any(t_ is target for b_ in ch.body for t_ in ast.walk(b_)):
+                    acc.append(ch.test)
+                if _encl(ch, target, acc):
+                    return True
+            return False
+
+        tests_ = []
+        _encl(fup, apps[0], tests_)
+        for t_ in tests_:
+            if isinstance(t_, ast.Name) and t_.id in consts and all(isinstance(v_, ast.Constant) and not v_.value for v_ in consts[t_.id]):
+                dead.append(t_.id)
+            if isinstance(t_, ast.Constant) and not t_.value:
+                dead.append(norm(t_))
+    ctx.check("git-push-tag-conflict-live", wup, bool(apps) and not dead, "the ref update of a bzr -> git push can reach its tag-conflict report (the guard is not a constant)", construct=f"guard {dead}" if dead else "no append to result.tag_conflicts", message=f"_update_pure_git_refs can never report a tag conflict ({'the guard `' + dead[0] + '` is only ever assigned a false constant' if dead else 'nothing is appended to result.tag_conflicts'}) and starts from an empty result dictionary, so `ref not in ret` holds for every ref: a push from a bzr branch to a git branch rewrites a destination tag whose definition differs, without --overwrite and without a conflict")
+    # ---- fourth round: the tag merge into the master is switched off only when the source IS the master -----------------
+    BR = "breezy/branch.py"
+    fgp = repo.func(BR, "GenericInterBranch.pull")
+    pulls = [c for c in calls_in(fgp) if call_attr(c) == "_pull" and norm(c.func) == "self._pull"]
+    ctx.require(len(pulls) == 1, f"{BR}:GenericInterBranch.pull: the call of self._pull was not found")
+    kwm = [k for k in pulls[0].keywords if k.arg == "merge_tags_to_master"]
+    sim = {s_.targets[0].id for s_ in ast.walk(fgp) if isinstance(s_, ast.Assign) and len(s_.targets) == 1 and isinstance(s_.targets[0], ast.Name) and isinstance(s_.value, ast.Compare) and len(s_.value.ops) == 1 and isinstance(s_.value.ops[0], ast.Eq) and any(isinstance(e, ast.Constant) and e.value == "" for e in (s_.value.left, s_.value.comparators[0]))}
+    ctx.require(len(sim) == 1, f"{BR}:GenericInterBranch.pull: the `<source is the master> = relpath == \"\"` verdict was not found ({sorted(sim)})")
+    simv = next(iter(sim))
+    okm = not kwm or (isinstance(kwm[0].value, ast.UnaryOp) and isinstance(kwm[0].value.op, ast.Not) and isinstance(kwm[0].value.operand, ast.Name) and kwm[0].value.operand.id == simv) or (isinstance(kwm[0].value, ast.Constant) and kwm[0].value.value is True)
+    ctx.check("master-tag-merge-unless-source-is-master", f"{BR}:GenericInterBranch.pull", okm, f"_pull is told to merge tags into the master unless the source is the master itself (merge_tags_to_master=not {simv})", construct=norm(kwm[0].value) if kwm else "", message=f"GenericInterBranch.pull passes merge_tags_to_master=`{norm(kwm[0].value) if kwm else ''}`: the tag merge that reports conflicts to the caller then skips the master although the source is a third branch — a tag that differs only in the master is not reported as a conflict (the result of the inner master_branch.pull() is discarded), and with a master that has no new revisions the source's new tags never reach it")
+
 
 
 MUTANTS = [
+    Mutant("git tag merge looks the destination tag up among loose refs only", "breezy/git/branch.py", "            elif overwrite or ref_name not in target_repo._git.refs:\n", "            elif overwrite or target_repo._git.refs.read_loose_ref(ref_name) is None:\n", expect="git-refs-read-through-container"),
+    Mutant("master tag merge skipped for every bound pull", "breezy/branch.py", "                merge_tags_to_master=not source_is_master,\n", "                merge_tags_to_master=not bound_location,\n", expect="master-tag-merge-unless-source-is-master"),
     Mutant("git pull forgets the tag selector", "breezy/git/branch.py", "                (\"tags\" in overwrite),\n                ignore_master=True,\n                selector=tag_selector,\n", "                (\"tags\" in overwrite),\n                ignore_master=True,\n", expect="tag-selector-passed-through"),
     Mutant("VFS fallback of _set_tags_bytes leaves the cache stale", "breezy/bzr/remote.py", "        if self.is_locked():\n            self._tags_bytes = bytes\n        medium = self._client._medium\n        if medium._is_remote_before((1, 18)):\n            self._vfs_set_tags_bytes(bytes)\n            return\n", "        medium = self._client._medium\n        if medium._is_remote_before((1, 18)):\n            self._vfs_set_tags_bytes(bytes)\n            return\n        if self.is_locked():\n            self._tags_bytes = bytes\n", expect="remote-tags-cache-follows-write"),
     Mutant("git tag merge resolves the tag in the source repository", "breezy/git/branch.py", "                    updates[tag_name] = target_repo.lookup_foreign_revision_id(peeled)\n", "                    updates[tag_name] = self.source.branch.repository.lookup_foreign_revision_id(peeled)\n", expect="git-tag-target-holds-object"),
